@@ -548,6 +548,9 @@ def generator_family(run, replay):
             extra.append(dict(gen="topologies", n=k, rooted=r))
     for k in (-1, 0, 1, 2, 3, 4, 9, 40):
         extra.append(dict(gen="star", n=k, rooted=False))
+    for g in ("starnames", "startree"):
+        for k in (0, 2, 3, 5, 12, 33):
+            extra.append(dict(gen=g, n=k, rooted=False))
     with open(cases_path, "a") as f:
         for e in extra:
             f.write(json.dumps(dict(fam="C16", pat=0, ref=dict(root=0, nodes=[]), trees=[], extra=e)) + "\n")
